@@ -181,10 +181,10 @@ def symbolic_trace(rng, ncalls=10, via="liesel"):
             si = rng.randrange(len(pool))
             keys = rng.sample(range(1, run.n + 1), rng.randint(1, min(3, run.n)))
             got = iface.extract_position([f"n{k}" for k in keys], pool[si])
-            # transient nodes are not stored in a state (value None); read through the scratch model
-            vals_eff, _ = _eff(run, scratch, pool[si])
+            # (a key may name a transient node, e.g. the proxy of a variable or a TransientCalc: the state stores nothing
+            # for it, the extracted quantity is its value in that state all the same)
             ev.append({"ev": "extract", "st": si + 1, "keys": keys,
-                       "values": [str(got[f"n{k}"]) if got[f"n{k}"] is not None else vals_eff[k - 1] for k in keys]})
+                       "values": [str(got[f"n{k}"]) for k in keys]})
         elif vals:
             k = rng.choice(vals)
             user.nodes[f"n{k}"].value = None if rng.random() < 0.1 else Term("u" + str(rng.randint(0, 9)))
